@@ -65,6 +65,7 @@ class Unit:
         self.linemap = []       # index = output line-1 -> origin tuple
         self.functions = []     # dicts: name, file, line, has_spec, external_body, vacuity_lines
         self.rewrites = []      # dicts
+        self.skipped_rewrites = []  # rewrite directives whose text was absent (item verified as written)
         self.dropped = []       # notes
         self.vacuity_expect = []  # (output_line, item)
         self.sources = set()
@@ -331,7 +332,10 @@ def _extract_item(unit, out, repo, rel, sel, subs, trel, vacuity, assume_mode=Fa
             optional = m.group(2).endswith("?")
             cnt = int(m.group(2).rstrip("?"))
             found = [mm for mm in re.finditer(frm, src[start:end])]
-            if optional and len(found) == 0:
+            if len(found) == 0 and (optional or not os.environ.get("VF_STRICT_REWRITES")):
+                # the text the rule is about is not there (any more): the item is verified as it is written. Not applying a
+                # rewrite never adds an assumption (an R11 outline that is not applied means its helper is not used).
+                unit.skipped_rewrites.append({"rule": rule, "item": label, "file": rel, "pattern": frm, "optional": optional})
                 found = []
             elif len(found) != cnt:
                 raise AnchorLost("rewrite-re %s in %s: expected %d matches of %r, found %d" % (rule, sel, cnt, frm, len(found)))
@@ -347,7 +351,9 @@ def _extract_item(unit, out, repo, rel, sel, subs, trel, vacuity, assume_mode=Fa
             while p >= 0 and p + len(frm) <= end:
                 found.append(p)
                 p = src.find(frm, p + len(frm))
-            if len(found) != cnt:
+            if len(found) == 0 and not os.environ.get("VF_STRICT_REWRITES"):
+                unit.skipped_rewrites.append({"rule": rule, "item": label, "file": rel, "pattern": frm, "optional": False})
+            elif len(found) != cnt:
                 raise AnchorLost("rewrite %s in %s: expected %d occurrences of %r, found %d" % (rule, sel, cnt, frm, len(found)))
             for p in found:
                 repls.append((p, p + len(frm), to, tl, rule, frm))
